@@ -70,7 +70,33 @@ impl<'a, W: Write> Out<'a, W> {
         tick(payload);
         let r = exec::exec(op, fmt, payload).unwrap_or_else(|e| format!("bad-op {e}"));
         self.op(op, fmt, payload, &r);
+        if op == "eparse" {
+            self.mid_door(fmt, payload, &r);
+        }
         r
+    }
+    /// every text given to the whole-value enum parser also goes through the slot door
+    /// (`parse::<NarseseOptions<…>>`): it must not panic (C04), and the kind the whole-value parser returns is the
+    /// kind `has_task` / `has_sentence` / `take_*` read off the slots (C15)
+    fn mid_door(&mut self, fmt: &str, payload: &str, whole: &str) {
+        let m = exec::exec("emid", fmt, payload).unwrap_or_else(|e| format!("bad-op {e}"));
+        self.op("emid", fmt, payload, &m);
+        self.checked("C04");
+        if m.starts_with("panic") {
+            self.fail("C04", fmt, "parse::<NarseseOptions<..>> (the slot door) panics", &format!("text={payload}"));
+            return;
+        }
+        if let Some(rest) = whole.strip_prefix("ok ( ") {
+            self.checked("C15");
+            let kind = rest.split(' ').next().unwrap_or("");
+            let flag = |k: &str| m.split(' ').find_map(|x| x.strip_prefix(k)).unwrap_or("?").to_string();
+            let (hs, ht, ts, tt) = (flag("hs="), flag("ht="), flag("ts="), flag("tt="));
+            let want = match kind { "NTask" => ("1", "1"), "NSentence" => ("1", "0"), "NTerm" => ("0", "0"), _ => ("?", "?") };
+            if !m.starts_with("ok ") || (hs.as_str(), ht.as_str()) != want || ts != hs || tt != ht {
+                self.fail("C15", fmt, "the kind returned by parse is not the kind has_sentence / has_task / take_* read off the parsed slots",
+                    &format!("text={payload} parse={} slots={m}", &whole[..whole.len().min(60)]));
+            }
+        }
     }
     /// order-sensitive printers: the expected text comes from the SAME instance that was serialised
     fn efmt(&mut self, f: &str, raw: &str, v: &Narsese) -> String {
@@ -83,6 +109,12 @@ impl<'a, W: Write> Out<'a, W> {
         tick(raw);
         let r = exec::typst_out(v);
         self.op("typst", "-", raw, &r);
+        r
+    }
+    fn typstparts(&mut self, raw: &str, v: &Narsese) -> String {
+        tick(raw);
+        let r = exec::typstparts_out(v);
+        self.op("typstparts", "-", raw, &r);
         r
     }
     fn checked(&mut self, prop: &str) {
@@ -362,6 +394,43 @@ fn values<W: Write>(r: &mut Rng, cfg: &TermCfg, n: usize, o: &mut Out<W>) {
             }
             None => o.fail("C16", "-", "typst panicked", &raw),
         }
+        // the stand-alone renderings of the parts (term, punctuation, stamp, truth, budget): total, normalised,
+        // and unambiguous per kind of item (C16 names each of them)
+        let tp = o.typstparts(&raw, &v);
+        o.checked("C16");
+        match tp.strip_prefix("s ") {
+            Some(rest) => {
+                let kinds = ["term", "punctuation", "stamp", "truth", "budget"];
+                let sent = match &v { Narsese::Term(_) => None, Narsese::Sentence(s) => Some(s.clone()), Narsese::Task(k) => Some(k.get_sentence().clone()) };
+                for (i, hs) in rest.split(' ').enumerate() {
+                    let text = ser::unhs(hs).unwrap_or_default();
+                    if !typst_normal(&text) {
+                        o.fail("C16", "-", &format!("stand-alone typst {} not whitespace-normalised", kinds[i]), &format!("value={raw} text={hs}"));
+                    }
+                    // canonical description of the item (for the term: the order-insensitive serialisation)
+                    let canon = match (i, &sent) {
+                        (0, _) => ser::term(v.get_term(), Mode::CanonDedup),
+                        (1, Some(s)) => ser::punct(s.get_punctuation()),
+                        (2, Some(s)) => ser::stamp(s.get_stamp()),
+                        (3, Some(s)) => ser::truth(s.get_truth().unwrap_or(&Truth::Empty), Mode::Canon),
+                        (4, _) => match &v { Narsese::Task(k) => ser::budget(k.get_budget(), Mode::Canon), _ => continue },
+                        _ => continue,
+                    };
+                    if i == 0 {
+                        continue; // terms: covered by the whole-value collision table (set order makes texts differ)
+                    }
+                    let key = format!("{}\u{1}{}", kinds[i], text);
+                    if let Some(prev) = typst_seen.get(&key) {
+                        if *prev != canon {
+                            o.fail("C16", "-", &format!("two different {} values render to the same stand-alone Typst text", kinds[i]), &format!("a={prev} b={canon} text={hs}"));
+                        }
+                    } else {
+                        typst_seen.insert(key, canon);
+                    }
+                }
+            }
+            None => o.fail("C16", "-", "stand-alone typst rendering of a part panicked", &raw),
+        }
         // a twin differing only by a tiny change of one number must render differently (C16)
         if let Some(tw) = perturb(r, &v) {
             o.checked("C16");
@@ -385,7 +454,39 @@ fn values<W: Write>(r: &mut Rng, cfg: &TermCfg, n: usize, o: &mut Out<W>) {
         }
         o.run("cast", "-", &raw);
         cast_oracle(o, &v);
-        // the stand-alone item printers/parsers
+        // the stand-alone item printers and the stand-alone item parsers (side doors): every public way of printing a
+        // truth / budget / stamp / punctuation gives a text its own parser reads back as that item
+        let sent = match &v { Narsese::Term(_) => None, Narsese::Sentence(s) => Some(s.clone()), Narsese::Task(k) => Some(k.get_sentence().clone()) };
+        if let Some(s) = sent {
+            for f in FORMATS {
+                let ff = efmt(f).unwrap();
+                let mut cases: Vec<(&str, &str, Vec<String>, String)> = vec![];
+                if let Some(tr) = s.get_truth() {
+                    cases.push(("etruth", "truth", vec![ff.format_truth(tr), ff.format(tr), tr.format_to(ff)], ser::truth(tr, Mode::Canon)));
+                }
+                let st = s.get_stamp();
+                cases.push(("estamp", "stamp", vec![ff.format_stamp(st), ff.format(st), st.format_to(ff)], ser::stamp(st)));
+                let pu = s.get_punctuation();
+                cases.push(("epunct", "punctuation", vec![ff.format_punctuation(pu), ff.format(pu), pu.format_to(ff)], ser::punct(pu)));
+                if let Narsese::Task(k) = &v {
+                    let bu = k.get_budget();
+                    cases.push(("ebudget", "budget", vec![ff.format_budget(bu), ff.format(bu), bu.format_to(ff)], ser::budget(bu, Mode::Canon)));
+                }
+                for (door, what, texts, canon) in cases {
+                    for (i, text) in texts.iter().enumerate() {
+                        if i > 0 && *text == texts[0] {
+                            continue;
+                        }
+                        let back = o.run(door, f, &ser::hs(text));
+                        o.checked("C01");
+                        if back != format!("ok {canon}") {
+                            o.fail("C01", f, &format!("a stand-alone {what} printed by {} is not read back by its own parser", ["format_*", "format(&x)", "x.format_to"][i]),
+                                &format!("item={canon} text={} got={back}", ser::hs(text)));
+                        }
+                    }
+                }
+            }
+        }
     }
 }
 
@@ -596,6 +697,33 @@ fn typst_canonical_text(n: &Narsese) -> String {
 fn cast_oracle<W: Write>(o: &mut Out<W>, v: &Narsese) {
     o.checked("C15");
     let bad = |o: &mut Out<W>, what: &str| o.fail("C15", "-", what, &ser::narsese(v, Mode::Canon));
+    // wrapping with `from_*` and unwrapping with the `TryFrom<Narsese>` conversions: the matching one returns the
+    // content, the two others fail
+    {
+        let as_term: Result<Term, _> = Term::try_from(v.clone());
+        let as_sentence: Result<Sentence, _> = Sentence::try_from(v.clone());
+        let as_task: Result<Task, _> = Task::try_from(v.clone());
+        let ok = match v {
+            Narsese::Term(t) => as_term.ok().as_ref() == Some(t) && as_sentence.is_err() && as_task.is_err() && Narsese::from_term(t.clone()) == *v,
+            Narsese::Sentence(s) => as_sentence.ok().as_ref() == Some(s) && as_term.is_err() && as_task.is_err() && Narsese::from_sentence(s.clone()) == *v,
+            Narsese::Task(k) => as_task.ok().as_ref() == Some(k) && as_term.is_err() && as_sentence.is_err() && Narsese::from_task(k.clone()) == *v,
+        };
+        if !ok {
+            bad(o, "from_* / TryFrom<Narsese>: the matching conversion must return the content and the others must fail");
+        }
+        // the positional sentence constructors build the variants they name
+        if let Some(s) = match v { Narsese::Sentence(s) => Some(s), Narsese::Task(k) => Some(k.get_sentence()), _ => None } {
+            let rebuilt = match s {
+                Sentence::Judgement(t, x, st) => Sentence::new_judgement(t.clone(), x.clone(), st.clone()),
+                Sentence::Goal(t, x, st) => Sentence::new_goal(t.clone(), x.clone(), st.clone()),
+                Sentence::Question(t, st) => Sentence::new_question(t.clone(), st.clone()),
+                Sentence::Quest(t, st) => Sentence::new_quest(t.clone(), st.clone()),
+            };
+            if rebuilt != *s || s.get_stamp().is_fixed() != matches!(s.get_stamp(), Stamp::Fixed(_)) {
+                bad(o, "Sentence::new_* does not build the variant it names (or Stamp::is_fixed is wrong)");
+            }
+        }
+    }
     match v {
         Narsese::Term(t) => {
             if Narsese::from_term(t.clone()).try_into_term().ok().map(|x| x == *t) != Some(true) {
@@ -694,6 +822,18 @@ fn lexvalues<W: Write>(r: &mut Rng, cfg: &TermCfg, n: usize, o: &mut Out<W>) {
                 // the trait-based entry points print what `format_narsese` prints
                 {
                     let text = ser::unhs(hs).unwrap();
+                    // the stand-alone lexical item printers print the pieces the line is made of
+                    if let lx::Narsese::Task(k) = &v {
+                        if !text.starts_with(&lf.format_budget(&k.budget)) {
+                            o.fail("C02", f, "lexical format_budget does not print the budget the task line begins with", &format!("value={ser_v} text={hs}"));
+                        }
+                    }
+                    if let Some(s) = match &v { lx::Narsese::Sentence(s) => Some(s), lx::Narsese::Task(k) => Some(&k.sentence), _ => None } {
+                        let tt = lf.format_truth(&s.truth);
+                        if !text.ends_with(&tt) || lf.format(&s.truth) != tt || s.truth.format_to(lf) != tt {
+                            o.fail("C02", f, "lexical format_truth / format(&truth) does not print the truth the line ends with", &format!("value={ser_v} text={hs}"));
+                        }
+                    }
                     let mut others: Vec<(&str, String)> = vec![("Narsese::format_to", v.format_to(lf)), ("format(&Narsese)", lf.format(&v))];
                     match &v {
                         lx::Narsese::Term(t) => { others.push(("format_term", lf.format_term(t))); others.push(("format(&Term)", lf.format(t))); }
@@ -726,6 +866,34 @@ fn lexvalues<W: Write>(r: &mut Rng, cfg: &TermCfg, n: usize, o: &mut Out<W>) {
             o.run("lapi", "-", &ser::lterm(v.get_term()));
             // C14, lexical half: consuming extraction returns the stored components, in order, duplicates included
             lex_extract_oracle(o, v.get_term());
+            // C15, accessor laws of the lexical structures: the trait accessors return the stored fields, the
+            // positional constructors build what the fields say
+            {
+                o.checked("C15");
+                let sent = match &v { lx::Narsese::Term(_) => None, lx::Narsese::Sentence(s) => Some(s), lx::Narsese::Task(k) => Some(&k.sentence) };
+                if let Some(s) = sent {
+                    let same = s.get_term() == &s.term && s.get_punctuation() == &s.punctuation && s.get_stamp() == &s.stamp
+                        && s.get_truth() == Some(&s.truth)
+                        && lx::Sentence::new(s.term.clone(), s.punctuation.clone(), s.stamp.clone(), s.truth.clone()) == *s;
+                    if !same {
+                        o.fail("C15", f, "lexical sentence: an accessor does not return the stored field (or `new` does not store its arguments)", &ser_v);
+                    }
+                }
+                if let lx::Narsese::Task(k) = &v {
+                    let s = &k.sentence;
+                    let same = k.get_term() == &s.term && k.get_punctuation() == &s.punctuation && k.get_stamp() == &s.stamp
+                        && k.get_truth() == Some(&s.truth) && k.get_budget() == &k.budget && k.get_sentence() == s
+                        && lx::Task::new(k.budget.clone(), s.term.clone(), s.punctuation.clone(), s.stamp.clone(), s.truth.clone()) == *k;
+                    if !same {
+                        o.fail("C15", f, "lexical task: an accessor does not return the stored field (or `new` does not store its arguments)", &ser_v);
+                    }
+                }
+                if let lx::Term::Statement { copula, subject, predicate } = v.get_term() {
+                    if lx::Term::new_statement_infix((**subject).clone(), copula.clone(), (**predicate).clone()) != *v.get_term() {
+                        o.fail("C15", f, "lexical new_statement_infix does not build the statement its arguments describe", &ser_v);
+                    }
+                }
+            }
             // C15 lexical cast laws
             o.checked("C15");
             if let lx::Narsese::Sentence(s) = &v {
@@ -1529,6 +1697,18 @@ fn ctor<W: Write>(r: &mut Rng, n: usize, o: &mut Out<W>) {
             if arity >= 2 && t.c().to_bits() != xs[1].to_bits() { o.fail("C13", "-", "truth c() != stored", &payload); }
             if arity < 2 && catch_unwind(AssertUnwindSafe(|| t.c())).is_ok() { o.fail("C13", "-", "c() on a truth without confidence did not panic", &payload); }
             if arity < 1 && catch_unwind(AssertUnwindSafe(|| t.f())).is_ok() { o.fail("C13", "-", "f() on an empty truth did not panic", &payload); }
+            // the trait accessors (`EvidentValue`) are the same accessors under other names
+            if arity >= 1 && (t.get_frequency().to_bits() != xs[0].to_bits() || t.frequency().to_bits() != xs[0].to_bits()) {
+                o.fail("C13", "-", "truth get_frequency() / frequency() != stored", &payload);
+            }
+            if arity >= 2 {
+                let (f2, c2) = t.get_frequency_confidence();
+                if t.get_confidence().to_bits() != xs[1].to_bits() || t.confidence().to_bits() != xs[1].to_bits()
+                    || f2.to_bits() != xs[0].to_bits() || c2.to_bits() != xs[1].to_bits() {
+                    o.fail("C13", "-", "truth get_confidence() / confidence() / get_frequency_confidence() != stored", &payload);
+                }
+            }
+            if arity < 2 && catch_unwind(AssertUnwindSafe(|| t.get_confidence())).is_ok() { o.fail("C13", "-", "get_confidence() on a truth without confidence did not panic", &payload); }
         }
         let b = match catch_unwind(AssertUnwindSafe(|| Budget::try_from_floats(xs.iter().copied()))) {
             Ok(b) => b,
